@@ -41,12 +41,22 @@ def field_coeffs(dom, d, order, degree=2, pfx="c", time=True):
     return co
 
 
-def field_coeffs_at(dom, d, order, ustar, dustar, tstar, pfx="f", time=True, quad=True):
+def field_coeffs_at(dom, d, order, ustar, dustar, tstar, pfx="f", time=True, quad=True, jac="full"):
     """polynomial field (degree 2, explicit time) parametrised so that its value and Jacobians AT THE
     POINT (ustar, dustar, tstar) are plain symbols ft, Ju, Jd -- any other evaluation point gives
     different, point-dependent values (so a wrong linearisation point is visible)."""
     ft = sym_array(dom, pfx + "v", (d,))
-    Ju = sym_array(dom, pfx + "Ju", (d, d))
+    if jac == "full":
+        Ju = sym_array(dom, pfx + "Ju", (d, d))
+    elif jac == "diag":          # componentwise decoupled field
+        Ju = sym_array(dom, pfx + "Ju", (d, d), "diag")
+    else:                        # Jacobian = multiple of the identity (needs a field without quadratic part)
+        kap = sym_array(dom, pfx + "kap", ())
+        Ju = np.empty((d, d), dtype=object)
+        for a in range(d):
+            for b in range(d):
+                Ju[a, b] = kap[()] if a == b else Poly()
+        quad = False
     co = {}
     g = sym_array(dom, pfx + "g", (d,)) if quad else None
     e = sym_array(dom, pfx + "t", (d,)) if time else None
